@@ -472,6 +472,8 @@ class StopThenAwaitLoose(nfa.Spec):
                 return nfa.Err("R04.4: termination awaited in phase %s (needs the accepted stop request first)" % ph)
             return ("awaited",)
         if ev == "retval:residual":
+            if ph == "s0":
+                return ("errret",)  # nothing to stop: the weak handle could not be upgraded (`upgrade().ok_or(AlreadyStopped)?`)
             if ph != "stop_failed":
                 return nfa.Err("R04.4: error propagated in phase %s" % ph)
             return ("errret",)
